@@ -914,6 +914,8 @@ class MatrixProduct:
         else:
             assert self.qnidx == self.site_num-1
 
+        # nothing to sweep over for a single site or when stopping at the current centre
+        idx = None
         for idx in self.iter_idx_list(full=False, stop_idx=stop_idx):
             self._push_cano(idx)
         # can't iter to idx == 0 or idx == self.site_num - 1
